@@ -10,7 +10,8 @@ checks = []; na = []
 for p in props:
     pid = p['id']
     f = HERE / 'props' / f'{pid.lower()}.py'
-    if not f.exists():
+    pending = (HERE / 'pending.txt').read_text().split() if (HERE / 'pending.txt').exists() else []
+    if not f.exists() or pid in pending:
         na.append(dict(property_id=pid, reason='check not built yet in this round (planned in DESIGN.md §5); nothing is claimed for it'))
         continue
     m = importlib.import_module(f'props.{pid.lower()}')
